@@ -25,7 +25,7 @@ ASSUMPTIONS = [
     "the Lean model of rlib_io::Reader is hand-written; it is tied to the code by running both on the same (input, schedule, script) cases",
     "the source obeys the std::io::Read contract: it never reports more bytes than it wrote, and after returning 0 it has no more data",
     "harness built in the release profile with overflow-checks=true (debug_assert! of reader.rs is off, as in a contest build)",
-    "BUF_SIZE is extracted from rlib/io/src/reader.rs on every run and handed to the model; the theorems hold for every BUF >= 1",
+    "the buffer size is read from rlib/io/src/reader.rs when an anchor matches, otherwise learned from the running code (slice offered to the first read); it only aims the boundary streams and parametrises the model: the theorems hold for every BUF >= 1 and the spec does not depend on it",
 ]
 TRUSTED_EXTRA = ["std::io::Read contract of the source handed to Reader::new", "Box<dyn Read>, String::push, Vec::push of std"]
 MANIFEST = {
@@ -45,44 +45,95 @@ MANIFEST = {
 }
 
 
+def _eval_usize(expr):
+    """`1 << 16`, `65536`, `64 * 1024`, `1 << 10 << 6`, `65_536usize` ... -> int, or None."""
+    e = re.sub(r"(?<=\d)_(?=\d)", "", expr.strip())
+    e = re.sub(r"(\d)(?:usize|u64|u32)\b", r"\1", e)
+    if not re.fullmatch(r"[0-9\s<*+()\-]+", e) or not re.search(r"\d", e):
+        return None
+    try:
+        v = eval(e, {"__builtins__": {}}, {})      # digits, <<, *, +, -, parentheses only
+    except Exception:
+        return None
+    return v if isinstance(v, int) else None
+
+
+def _find_const(src, name):
+    m = re.search(r"\bconst\s+" + re.escape(name) + r"\s*:\s*usize\s*=\s*([^;]+);", src)
+    return _eval_usize(m.group(1)) if m else None
+
+
+def _resolve_len(src, expr):
+    """length expression of a byte buffer: a literal expression or a (possibly qualified) constant name."""
+    expr = expr.strip()
+    v = _eval_usize(expr)
+    if v is not None:
+        return v
+    m = re.fullmatch(r"(?:[A-Za-z_][A-Za-z0-9_]*\s*::\s*)*([A-Za-z_][A-Za-z0-9_]*)", expr)
+    return _find_const(src, m.group(1)) if m else None
+
+
 def extract(repo):
-    """BUF_SIZE of Reader, read from the source text with anchored regexes (fail loudly)."""
-    problems = []
-    params = {}
+    """Best effort: the reader's buffer size from the source text. The verdict does not need it (the theorems hold for
+    every BUF >= 1 and the spec does not mention BUF); it aims the boundary streams and parametrises the model. When no
+    anchor matches, the harness learns the size from the running code (`--buf auto`: length of the slice offered to the
+    first `read` call) and this is recorded as a note: buf_source = "observed"."""
+    params = {"buf_source": "observed"}
     path = os.path.join(repo, "rlib", "io", "src", "reader.rs")
     try:
         src = open(path).read()
     except OSError as e:
-        return params, [f"cannot read {path}: {e}"]
-    m = re.search(r"^\s*const\s+BUF_SIZE\s*:\s*usize\s*=\s*([^;]+);", src, flags=re.M)
-    if not m:
-        problems.append("reader.rs: `const BUF_SIZE: usize = ...;` not found")
-        return params, problems
-    expr = m.group(1).strip().replace("_", "")
-    val = None
-    mm = re.fullmatch(r"(\d+)\s*<<\s*(\d+)", expr)
-    if mm:
-        val = int(mm.group(1)) << int(mm.group(2))
-    elif re.fullmatch(r"\d+", expr):
-        val = int(expr)
-    elif re.fullmatch(r"\d+(\s*\*\s*\d+)+", expr):
-        val = 1
-        for f in expr.split("*"):
-            val *= int(f)
+        params["extraction_note"] = f"cannot read {path}: {e}; buffer size will be observed"
+        return params, []
+    val, how = None, None
+    # 1. the current anchors
+    v = _find_const(src, "BUF_SIZE")
+    if v is not None and re.search(r"\[\s*u8\s*;\s*(?:Reader::|Self::)?BUF_SIZE\s*\]|\[\s*0(?:u8)?\s*;\s*(?:Reader::|Self::)?BUF_SIZE\s*\]", src):
+        val, how = v, "const BUF_SIZE used as the length of the byte buffer"
+    # 2. generic: the length of a byte buffer, `[u8; X]`, `[0; X]`, `[0u8; X]`, `vec![0; X]`, `vec![0u8; X]`
     if val is None:
-        problems.append(f"reader.rs: BUF_SIZE expression not understood: {expr!r}")
-        return params, problems
+        cands = []
+        for m in re.finditer(r"\[\s*u8\s*;\s*([^\]]+)\]|\[\s*0(?:u8)?\s*;\s*([^\]]+)\]", src):
+            r = _resolve_len(src, m.group(1) or m.group(2))
+            if r is not None and r >= 1:
+                cands.append(r)
+        if cands and len(set(cands)) == 1:
+            val, how = cands[0], "length expression of the byte buffer (generic anchor)"
+        elif cands:
+            params["extraction_note"] = f"ambiguous buffer lengths in reader.rs: {sorted(set(cands))}; buffer size will be observed"
+    if val is None:
+        params.setdefault("extraction_note", "no buffer-size anchor matched in reader.rs; buffer size will be observed from the running code")
+        return params, []
     params["reader_buf_size"] = val
-    if not re.search(r"buf\s*:\s*\[\s*u8\s*;\s*Reader::BUF_SIZE\s*\]", src):
-        problems.append("reader.rs: the buffer is no longer `[u8; Reader::BUF_SIZE]`")
-    # side condition of the theorems
-    if val < 1:
-        problems.append(f"side condition BUF >= 1 fails for the extracted BUF_SIZE = {val}")
-    return params, problems
+    params["buf_source"] = "source"
+    params["extraction_anchor"] = how
+    return params, []
 
 
 def harness_args(params, profile):
-    return ["--buf", str(params.get("reader_buf_size", 65536))]
+    return ["--buf", str(params["reader_buf_size"]) if params.get("buf_source") == "source" else "auto"]
+
+
+def extra(ctx):
+    """Record the buffer size seen from outside (length of the slice offered to the first `read`): it is the BUF used
+    when the textual extraction found nothing, and a cross-check (a note, never a verdict) when it did."""
+    import subprocess
+    params = ctx["params"]
+    for pipe in ctx["pipes"]:
+        try:
+            r = subprocess.run([pipe.bin, "probe"], capture_output=True, text=True, timeout=60)
+            obs = int(r.stdout.strip())
+        except Exception as e:       # noqa: BLE001
+            params["observed_note"] = f"probe failed: {e}"
+            break
+        params["reader_buf_observed"] = obs
+        if params.get("buf_source") != "source":
+            params["reader_buf_size"] = obs
+        elif obs != params.get("reader_buf_size"):
+            params["buf_note"] = (f"extracted buffer size {params.get('reader_buf_size')} differs from the slice length {obs} offered to the "
+                                  "first read call; boundary-targeted inputs are aimed at the extracted value")
+        break
+    return []
 
 
 def nontrivial(case, rec):
